@@ -18,6 +18,7 @@ import Golib.Proof.C07Multi
 import Golib.Proof.C07Fast
 import Golib.Proof.C07InPlace
 import Golib.Proof.C07FormatBuf
+import Golib.Proof.C07Trans
 
 namespace Golib.C07
 
@@ -408,5 +409,31 @@ example : hexFormat [92, 255] = some [92, 120, 53, 67, 92, 120, 70, 70] := by de
 example : parseToString octalBody [97, 92, 49, 48, 49, 98] = .ok [97, 65, 98] := by decide
 example : parseToString utf16Body [92, 117, 68, 56, 51, 68, 92, 117, 68, 69, 48, 48] = .ok [240, 159, 152, 128] := by
   decide
+
+-- BEGIN wave-8 tie block (trans-strconv)
+/-! ### Regenerated tie (wave 8): the helpers of the escape codecs translated by `go2lean`
+
+`Golib.Gen.Trans.C07.*` is regenerated from the tree under verification on every run
+(`Golib/Gen/TransC07.lean`); these theorems are re-checked against what the code says now.
+The model uses `Nat` bytes, the translation `BitVec 8`: the abstraction function is
+`BitVec.toNat` / `BitVec.ofNat 8`, written out in every statement. -/
+
+/-- TIE: the translated `lower` (`c | 32`) is the model's `lower` on EVERY byte; it cannot panic. -/
+theorem c07_trans_lower (c : BitVec 8) :
+    Golib.Gen.Trans.C07.lower c = .ok (BitVec.ofNat 8 (Golib.C07.lower c.toNat)) :=
+  trans_lower_eq c
+
+/-- TIE: the translated `upper` (`c &^ (c >> 6 << 5)`, what `toUpper` applies to every digit of a
+Format escape) is the model's `upper` on EVERY byte; it cannot panic. -/
+theorem c07_trans_upper (c : BitVec 8) :
+    Golib.Gen.Trans.C07.upper c = .ok (BitVec.ofNat 8 (Golib.C07.upper c.toNat)) :=
+  trans_upper_eq c
+
+/-- Non-vacuity: `upper('f') = 'F'`, `upper('7') = '7'`, `lower('U') = 'u'`. -/
+example : Golib.Gen.Trans.C07.upper 102#8 = .ok 70#8 ∧
+    Golib.Gen.Trans.C07.upper 55#8 = .ok 55#8 ∧
+    Golib.Gen.Trans.C07.lower 85#8 = .ok 117#8 := by
+  refine ⟨?_, ?_, ?_⟩ <;> decide +kernel
+-- END wave-8 tie block (trans-strconv)
 
 end Golib.C07
